@@ -10,6 +10,8 @@ import (
 	"time"
 
 	sdk "github.com/cosmos/cosmos-sdk/types"
+	"github.com/ethereum/go-ethereum/common"
+	"github.com/ethereum/go-ethereum/core/types/goattypes"
 	bitcointypes "github.com/goatnetwork/goat/x/bitcoin/types"
 	relayertypes "github.com/goatnetwork/goat/x/relayer/types"
 	"verifharness/enga"
@@ -31,6 +33,7 @@ type c01Case struct {
 	// SharedKey: the last voter's seat carries the same BLS vote key as the seat before it
 	// (reachable at run time: two joiners registered with the same key hash)
 	SharedKey bool `json:"shared_vote_key,omitempty"`
+	Leaving   bool `json:"first_and_last_voter_asked_to_leave,omitempty"`
 }
 
 type c01World struct {
@@ -43,6 +46,39 @@ type c01World struct {
 }
 
 func newC01World(nVoters int) (*c01World, error) { return newC01WorldShared(nVoters, false) }
+
+// newC01WorldLeaving: the first and the last voter have been asked to leave (real removal requests
+// from the execution layer): until the epoch ends they are still listed, still current voters, and a
+// mark on them needs their signature like any other.
+func newC01WorldLeaving(nVoters int) (*c01World, error) {
+	w, err := newC01WorldShared(nVoters, false)
+	if err != nil {
+		return nil, err
+	}
+	ctx, _ := w.root.CacheContext()
+	var rr goattypes.RelayerRequests
+	seen := map[int]bool{}
+	for _, i := range []int{1, nVoters} {
+		if i >= 1 && i <= nVoters && !seen[i] {
+			seen[i] = true
+			rr.Removes = append(rr.Removes, &goattypes.RemoveVoterRequest{Voter: common.BytesToAddress(w.members[i].Addr())})
+		}
+	}
+	if err := w.n.App.RelayerKeeper.ProcessRelayerRequest(ctx, rr); err != nil {
+		return nil, err
+	}
+	left := 0
+	for i := 1; i <= nVoters; i++ {
+		if v, err := w.n.App.RelayerKeeper.Voters.Get(ctx, w.members[i].AddrStr()); err == nil && v.Status == relayertypes.VOTER_STATUS_OFF_BOARDING {
+			left++
+		}
+	}
+	if left == 0 {
+		return nil, fmt.Errorf("no voter is off-boarding after the removal requests")
+	}
+	w.root = ctx
+	return w, nil
+}
 
 func newC01WorldShared(nVoters int, shared bool) (*c01World, error) {
 	cfg := sim.DefaultCfg(1, nVoters)
@@ -233,7 +269,7 @@ func runC01(r *mc.Run) {
 		maxN = 5
 	}
 	r.Bounds["max_voters"] = maxN
-	r.Rule = "for each group size n: every subset of the position alphabet {0..n-1} u {n,n+1,63,64,255} as bitmap (minimal 8-byte-multiple encoding, plus longer encodings for the in-range marks) x every subset of members that signed, delivered through the application's MsgServiceRouter handler of MsgNewBlockHashes; NewPubkey and NewConsolidation: the same full product for n <= 2, accepting class + rejecting representatives above; every single-field perturbation of the signing context on the accepting case of each kind; odd bitmap lengths; groups of 2 and 3 voters in which two seats carry the same vote key (every mark set x every signer set: a mark on each seat needs that key's signature twice); Threshold() vs integer ceil for n in [0,255]; payload binding: for every voted kind (block-hash lists of 1, 2, 15, 16 hashes, new key, consolidation, process with 1 and 2 ids, replace) every single-field mutation of the payload (each byte of each byte field in two bits, lengths +-1, integers +-1 / high bits, list edits) delivered with the unchanged genuine vote must be rejected"
+	r.Rule = "for each group size n: every subset of the position alphabet {0..n-1} u {n,n+1,63,64,255} as bitmap (minimal 8-byte-multiple encoding, plus longer encodings for the in-range marks) x every subset of members that signed, delivered through the application's MsgServiceRouter handler of MsgNewBlockHashes; NewPubkey and NewConsolidation: the same full product for n <= 2, accepting class + rejecting representatives above; every single-field perturbation of the signing context on the accepting case of each kind; odd bitmap lengths; groups of 2 and 3 voters in which two seats carry the same vote key (every mark set x every signer set: a mark on each seat needs that key's signature twice); groups of 2 and 3 voters in which the first and the last voter have been asked to leave (still listed until the epoch ends: every mark set x every signer set); Threshold() vs integer ceil for n in [0,255]; payload binding: for every voted kind (block-hash lists of 1, 2, 15, 16 hashes, new key, consolidation, process with 1 and 2 ids, replace) every single-field mutation of the payload (each byte of each byte field in two bits, lengths +-1, integers +-1 / high bits, list edits) delivered with the unchanged genuine vote must be rejected"
 	r.Assumptions = []string{"BLS12-381 aggregate signatures are unforgeable (trusted)", "MsgProcessWithdrawal/MsgReplaceWithdrawal quorum cases are exercised in C05's per-state ill-formed variants"}
 
 	// Threshold() for the whole domain
@@ -331,6 +367,17 @@ func runC01(r *mc.Run) {
 			}
 		}
 	}
+	// members that have been asked to leave: every set of in-range marks x every signer set, n = 2 and 3
+	for _, n := range []int{2, 3} {
+		if n > maxN {
+			continue
+		}
+		for _, marks := range subsets(n) {
+			for _, ss := range subsets(n + 1) {
+				cases = append(cases, &c01Case{Voters: n, Kind: "NewBlockHashes", Marks: marks, BitmapLen: 8, Signers: ss, Leaving: true})
+			}
+		}
+	}
 	for _, c := range cases {
 		if c.SharedKey {
 			c.WantAccept = refAcceptShared(c.Voters, c.Marks, c.Signers)
@@ -350,7 +397,13 @@ func runC01(r *mc.Run) {
 			worlds[n] = l[:len(l)-1]
 			return w
 		}
-		w, err := newC01WorldShared(n%100, n >= 100)
+		var w *c01World
+		var err error
+		if n >= 200 {
+			w, err = newC01WorldLeaving(n - 200)
+		} else {
+			w, err = newC01WorldShared(n%100, n >= 100)
+		}
 		if err != nil {
 			panic(err)
 		}
@@ -363,6 +416,9 @@ func runC01(r *mc.Run) {
 		wk := c.Voters
 		if c.SharedKey {
 			wk += 100
+		}
+		if c.Leaving {
+			wk += 200
 		}
 		w := getWorld(wk)
 		defer putWorld(wk, w)
@@ -437,6 +493,9 @@ func replayC01(detail json.RawMessage) (bool, string) {
 		return rel.Threshold() != refThreshold(c.Voters), fmt.Sprintf("Threshold()=%d ref=%d", rel.Threshold(), refThreshold(c.Voters))
 	}
 	w, err := newC01WorldShared(c.Voters, c.SharedKey)
+	if c.Leaving {
+		w, err = newC01WorldLeaving(c.Voters)
+	}
 	if err != nil {
 		return false, err.Error()
 	}
